@@ -240,7 +240,7 @@ fn gen_cfg(r: &mut Rng, o: &WorldOpts) -> TrkCfg {
     }
 }
 
-fn new_obj(r: &mut Rng, serial: u32, scene: u64, o: &WorldOpts, near: Option<(f32, f32)>) -> Obj {
+fn new_obj(r: &mut Rng, serial: u32, scene: u64, o: &WorldOpts, near: Option<(f32, f32)>, feat_extra: usize) -> Obj {
     let speed = if o.fast && r.chance(1, 2) { 4.0 } else { 1.0 };
     let (x, y) = match near {
         Some((nx, ny)) => (nx + r.f32() * 30.0 - 15.0, ny + r.f32() * 30.0 - 15.0),
@@ -250,6 +250,12 @@ fn new_obj(r: &mut Rng, serial: u32, scene: u64, o: &WorldOpts, near: Option<(f3
     // prototypes well separated: one-hot-ish with magnitude 3
     proto[(serial as usize) % FEAT_DIM] = 3.0;
     proto[(serial as usize / FEAT_DIM) % FEAT_DIM] += 1.5;
+    // extra dimensions (feature length is a swarm knob: the packed representation has
+    // 8 lanes, so lengths below / at / above one and two lanes are all visited); the values
+    // are a fixed function of the object so that no generator randomness is consumed
+    for k in 0..feat_extra {
+        proto.push(0.25 * (((serial as usize * 31 + k * 17) % 7) as f32 - 3.0) / 3.0);
+    }
     Obj {
         serial,
         scene,
@@ -276,6 +282,8 @@ fn new_obj(r: &mut Rng, serial: u32, scene: u64, o: &WorldOpts, near: Option<(f3
 
 pub fn gen_tracker_case(seed: u64, o: &WorldOpts) -> TrackerCase {
     let mut r = Rng::new(seed);
+    // feature length 7 + extra (own random stream: older seeds keep their cases otherwise)
+    let feat_extra: usize = *Rng::new(seed ^ 0xFEA7_D1A5_0000_0001).pick(&[0usize, 0, 0, 0, 1, 2, 3, 9, 10, 17]);
     let cfg = gen_cfg(&mut r, o);
     let wide = o.wide && r.chance(1, 3);
     let n_scenes = if wide { r.range(5, 18) as u64 } else { r.range(1, o.max_scenes as i64) as u64 };
@@ -310,7 +318,7 @@ pub fn gen_tracker_case(seed: u64, o: &WorldOpts) -> TrackerCase {
             } else {
                 None
             };
-            let mut ob = new_obj(&mut r, serial, *s, o, near);
+            let mut ob = new_obj(&mut r, serial, *s, o, near, feat_extra);
             if long {
                 ob.immortal = true;
             }
@@ -323,7 +331,7 @@ pub fn gen_tracker_case(seed: u64, o: &WorldOpts) -> TrackerCase {
         }
     }
     if long && objs.is_empty() {
-        let mut ob = new_obj(&mut r, serial, scene_ids[0], o, None);
+        let mut ob = new_obj(&mut r, serial, scene_ids[0], o, None, feat_extra);
         ob.immortal = true;
         objs.push(ob);
         serial += 1;
@@ -370,10 +378,13 @@ pub fn gen_tracker_case(seed: u64, o: &WorldOpts) -> TrackerCase {
                 if r.chance(1, 8) {
                     (None, None)
                 } else {
-                    let mut f: Vec<f32> = ob.proto.iter().map(|p| p + jitter(r, 0.2)).collect();
+                    let mut f: Vec<f32> = ob.proto.iter().take(FEAT_DIM).map(|p| p + jitter(r, 0.2)).collect();
                     // unique tag coordinate so every stored feature is attributable
                     *serial += 1;
                     f.push(0.001 * (*serial % 1000) as f32);
+                    for (k, p) in ob.proto.iter().enumerate().skip(FEAT_DIM) {
+                        f.push(p + 0.004 * ((*serial as usize * (k + 3)) % 13) as f32);
+                    }
                     (
                         Some(f),
                         if r.chance(1, 8) {
@@ -476,7 +487,7 @@ pub fn gen_tracker_case(seed: u64, o: &WorldOpts) -> TrackerCase {
         // new objects appear
         if r.chance(1, 6) && objs.len() < 4 * o.max_objects {
             let s = *r.pick(&scene_ids);
-            objs.push(new_obj(&mut r, serial, s, o, None));
+            objs.push(new_obj(&mut r, serial, s, o, None, feat_extra));
             serial += 1;
         }
         let use_batch = o.batches && scene_ids.len() > 1 && (wide || r.chance(1, 2));
